@@ -686,6 +686,11 @@ impl SimMpd {
                         }
                         return Err(ack(c, index, "readpicture", "forced error"));
                     }
+                    if let Some(t) = pic.embedded_vanishes_at {
+                        if offset > 0 && offset >= t {
+                            return Ok(empty());
+                        }
+                    }
                     match pic.embedded {
                         None => return Ok(empty()),
                         Some(e) => (e.data, e.mime),
